@@ -289,6 +289,13 @@ def decimal_to_python(value: Union[Decimal, int, float, str]) -> Decimal:
     return datatypes.DecimalProxy(value)
 
 
+def python_to_decimal(value: Union[Decimal, int, float, str]) -> str:
+    if isinstance(value, float):
+        value = Decimal(str(value))
+    # str(Decimal('1E-8')) is not in the lexical space of xs:decimal
+    return format(value, 'f') if isinstance(value, Decimal) else str(value)
+
+
 def python_to_boolean(value: object) -> str:
     if isinstance(value, str):
         if value in XSD_BOOLEAN_MAP:
